@@ -200,7 +200,7 @@ func replayC09(detail json.RawMessage) error {
 // c09URLs: u1 (GET PUT POST OPTIONS), u2 (DELETE), an unknown URL, and the URLs of two routes
 // whose path variable has a regular expression with its own capturing group: GET /d/{id} and
 // POST /d/{id}/c; and a literal with a non-ASCII letter (percent-encoded on the wire).
-var c09URLs = []string{"u1", "u2", "nope", "d/42", "d/42/c", "d/x", "caf\u00e9", "api/reports", "reports"}
+var c09URLs = []string{"u1", "u2", "nope", "d/42", "d/42/c", "d/x", "caf\u00e9", "api/reports", "reports", "api/basket"}
 
 func c09Alphabet() []h.Req {
 	var alphabet []h.Req
@@ -209,6 +209,8 @@ func c09Alphabet() []h.Req {
 			alphabet = append(alphabet, preflight(url, corsE1, m, "X-A"))
 		}
 	}
+	// two URLs of the second (non-dynamic) service, on different routes of its table
+	alphabet = append(alphabet, preflight("api/basket", corsE1, "DELETE", "X-A"), preflight("api/reports", corsE1, "GET", "X-A"))
 	return alphabet
 }
 
@@ -383,7 +385,7 @@ func checkC09(run *h.Run) {
 	run.Cov["evaluations"] = cases*2 + seqTrans
 	run.Cov["distinct_nontrivial"] = nontriv + seqStates
 	run.Cov["exhaustive"] = true
-	run.Cov["rule"] = fmt.Sprintf("E1: configurations (allowed methods {computed,[GET],[GET,PUT]} x allowed headers {none,[X-A],[X-A,X-B],[*]} x cookies x router) x requests (6 URLs incl. routes whose variable has a regular expression with a capturing group x allowed/case-variant/disallowed origin x 6 requested methods x 8 requested-header lists, plus actual requests incl. non-OPTIONS requests carrying Access-Control-Request-Method) against the statement's grant rule, routable methods measured on a filter-less twin; E2: every sequence of <= %d steps over 9 preflights (3 URLs x 3 methods) and 2 route mutations (RemoveRoute / Route of PUT on a dynamic service) on one filter, each preflight answer compared with a fresh filter's on a container with the same routes; E3 (instrumented build): two concurrent preflights through one filter, all schedules within the preemption bound with happens-before race detection. Non-trivial: request from an allowed origin / every history.", depth)
+	run.Cov["rule"] = fmt.Sprintf("E1: configurations (allowed methods {computed,[GET],[GET,PUT]} x allowed headers {none,[X-A],[X-A,X-B],[*]} x cookies x router) x requests (6 URLs incl. routes whose variable has a regular expression with a capturing group x allowed/case-variant/disallowed origin x 6 requested methods x 8 requested-header lists, plus actual requests incl. non-OPTIONS requests carrying Access-Control-Request-Method) against the statement's grant rule, routable methods measured on a filter-less twin; E2: every sequence of <= %d steps over 11 preflights (3 URLs x 3 methods, 2 URLs of a second non-dynamic service) and 2 route mutations (RemoveRoute / Route of PUT on a dynamic service) on one filter, each preflight answer compared with a fresh filter's on a container with the same routes; E3 (instrumented build): two concurrent preflights through one filter, all schedules within the preemption bound with happens-before race detection. Non-trivial: request from an allowed origin / every history.", depth)
 	run.Assume = []string{"method-name case (get vs GET) is not decided by the statement: either answer accepted", "statement's grant rule transcribed in judgeC09"}
 	if f := e3Part["C09"]; f != nil {
 		f(run)
